@@ -108,7 +108,7 @@ def run(cmd, timeout, cwd, env=None, stdout_path=None, mem_gb=None):
     out = open(stdout_path, "wb") if stdout_path else subprocess.PIPE
     try:
         p = subprocess.Popen(cmd, cwd=cwd, env=env, stdout=out,
-                             stderr=subprocess.STDOUT if not stdout_path else subprocess.PIPE,
+                             stderr=subprocess.STDOUT,
                              preexec_fn=pre)
         try:
             so, se = p.communicate(timeout=timeout)
@@ -163,11 +163,11 @@ def build_job(job, wd, log):
     src = os.path.join(VERIF, "harness", job.src)
     incs = ["-I" + os.path.join(VERIF, "contracts"), "-I" + os.path.join(VERIF, "harness")]
     # woven copies shadow repo files
+    woven_lines = set()
     if job.weave:
         from . import weave
         wdir = os.path.join(wd, "woven")
         os.makedirs(wdir, exist_ok=True)
-        woven_lines = set()
         for repo_file, loops_file in job.weave:
             for fn_, ln_ in weave.weave_file(os.path.join(SRC, repo_file),
                                              os.path.join(VERIF, "contracts", loops_file),
@@ -230,7 +230,8 @@ def build_job(job, wd, log):
         log.write("pre-unwind: " + ",".join(pre) + "\n")
         if pre:
             gi(["--unwindset", ",".join(pre), "--unwinding-assertions"])
-        gi(["--apply-loop-contracts"])
+        if job.weave:
+            gi(["--apply-loop-contracts"])
         if job.enforce:
             gi(["--enforce-contract", job.enforce])
     elif job.mode == "M3":
@@ -342,6 +343,8 @@ def parse_text(path):
         results.append({"property": m.group(1), "description": m.group(3), "status": m.group(4),
                         "sourceLocation": {"line": m.group(2)}})
     msgs = [l for l in raw.split("\n") if l.startswith(("warning", "Out of memory", "Solver ran out", "too many addressed"))]
+    if "too many addressed objects" in raw:
+        return None, msgs + ["too many addressed objects: raise Job.object_bits"], None
     if "Out of memory" in raw or "ran out of memory" in raw or "std::bad_alloc" in raw:
         msgs.append("Out of memory")
     if not results or "VERIFICATION" not in raw:
@@ -550,7 +553,7 @@ def _judge(job, res, results, alltxt, t0):
             res["outcome"] = "UNDECIDED"
             res["reason"] = "only %d obligations generated, ledger has %d" % (n, led.get("_total", 0))
             return res
-    if job.mode == "M2" and classes.get("loop_invariant", 0) < 2:
+    if job.mode == "M2" and job.weave and classes.get("loop_invariant", 0) < 2:
         res["outcome"] = "UNDECIDED"
         res["reason"] = "loop contract was not applied (no loop-invariant obligations)"
         return res
